@@ -166,18 +166,31 @@ pub fn check_c08(ctx: &Ctx) -> i32 {
         }
     }
     let nconf = items.iter().map(|i| i.cfg.short() + &format!("{:?}", i.cfg.meta)).collect::<std::collections::HashSet<_>>().len();
-    let tally = par_items(&items, ctx.seed, |idx, it, t| {
+    let mut tally = par_items(&items, ctx.seed, |idx, it, t| {
         for (k, s) in it.specs.iter().enumerate() {
             let ops = hist::build_ops(&it.cfg, s);
             c08_one(&it.cfg, &ops, (idx as u64, k as u64), t);
         }
     });
+    // scaling family (many samples => long tables, moov well above 64 KiB at the top end; large samples)
+    let hs = scaling_histories(if ctx.thorough { 120 } else { 48 });
+    let chunks: Vec<&[(Cfg, Vec<Op>, String)]> = hs.chunks(8).collect();
+    let t2 = par_items(&chunks, ctx.seed, |idx, ch, t| {
+        for (k, (cfg, ops, _)) in ch.iter().enumerate() {
+            let mut c = cfg.clone();
+            if k % 2 == 0 {
+                c.meta = Some(oracle::model::Meta { title: Some("scaling".into()), time: Some(1), lang: None });
+            }
+            c08_one(&c, ops, (8_000_000 + idx as u64, k as u64), t);
+        }
+    });
+    tally.merge(t2);
     finish(
         ctx,
         &tally,
         Meta {
             level: "model_checking",
-            rule: format!("every history of the C01 set (nV<={nv}, nA<={na}) executed twice on the real muxer, fast start on and off, over {nconf} configuration/metadata-length combinations; differential oracle: top-level order per layout, each file dereferences to the submitted bytes (C01 oracle), reader-reduced movies (moov with chunk offsets zeroed) byte-equal; distinct by the pair of output files"),
+            rule: format!("every history of the C01 set (nV<={nv}, nA<={na}) executed twice on the real muxer, fast start on and off, over {nconf} configuration/metadata-length combinations; plus the scaling family (every video count up to 48 / 120 with three audio cadences, and 70 KB samples); differential oracle: top-level order per layout, each file dereferences to the submitted bytes (C01 oracle), reader-reduced movies (moov with chunk offsets zeroed) byte-equal; distinct by the pair of output files"),
             bound: format!("nV<={nv}, nA<={na}; metadata title lengths {title_lens:?}"),
             exhaustive: true,
             assumptions: vec!["the independent reader is trusted".into()],
@@ -424,6 +437,22 @@ pub fn scaling_histories(max_video: usize) -> Vec<(Cfg, Vec<Op>, String)> {
                 }
                 out.push((cfg, ops, format!("nv={nv} cadence {name} shape {shape}")));
             }
+        }
+    }
+    // samples larger than 64 KiB (16-bit and chunk-size thresholds in size handling)
+    for (codec, ac, fs) in [(VCodec::H264, Some(ACodec::AacLc), true), (VCodec::Vp9, None, false), (VCodec::H265, Some(ACodec::Opus), false), (VCodec::Av1, None, true)] {
+        for big_at in 0..3usize {
+            let cfg = Cfg::basic(codec, ac, fs);
+            let mut ops = vec![];
+            for i in 0..3usize {
+                let len = if i == big_at { 70_000 + i } else { 5 + i };
+                let (d, _) = video_frame(codec, i == 0, i == 0, i as u32 + 1, len);
+                ops.push(Op::WV { pts: T(i as f64 * unit), data: Bytes::new(d), key: i == 0 });
+                if let Some(a) = ac {
+                    ops.push(Op::WA { pts: T(i as f64 * unit), data: Bytes::new(audio_frame(a, i as u32, if i == big_at && a == ACodec::Opus { 66_000 } else { 6 }).0) });
+                }
+            }
+            out.push((cfg, ops, format!("large sample at {big_at}")));
         }
     }
     out
